@@ -137,16 +137,23 @@ theorem frameOK_congr {g g' : Ghost} (h1 : g'.written = g.written) (h2 : g'.finW
 
 /-- the receiver-side steps do not touch the sending endpoint or the wire -/
 theorem step_recv_side (s : Sys) (op : Op)
-    (h : (∃ i, op = .deliver i) ∨ (∃ j, op = .deliverReset j) ∨ op = .discardRecv) :
+    (h : (∃ i, op = .deliver i) ∨ (∃ j, op = .deliverReset j) ∨ op = .discardRecv ∨ op = .discardSend) :
     (step s op).1.send = s.send ∧ (step s op).1.ghost = s.ghost ∧ (step s op).1.wire = s.wire ∧
     (step s op).1.resetWire = s.resetWire := by
-  rcases h with ⟨i, rfl⟩ | ⟨j, rfl⟩ | rfl <;> simp only [step] <;> (repeat' split) <;> simp
+  rcases h with ⟨i, rfl⟩ | ⟨j, rfl⟩ | rfl | rfl <;> simp only [step] <;> (repeat' split) <;> simp
+
+theorem step_gone {s : Sys} (hg : s.sendGone = true) :
+    (∀ d f, (step s (.appWrite d f)).1 = s) ∧ (∀ c, (step s (.appReset c)).1 = s) := by
+  constructor <;> intros <;> simp [step, hg]
 
 theorem sendInv_step {s : Sys} (h : SendInv s) (hq : s.quirkNoRoomGuard = false) (op : Op)
     (ok : okOp s op) : SendInv (step s op).1 := by
   cases op with
   | appWrite data fin =>
-    simp only [step]
+    cases hgn : s.sendGone with
+    | true => rw [(step_gone hgn).1]; exact h
+    | false =>
+    simp only [step, hgn, Bool.false_eq_true, if_false]
     split
     · rename_i s' hw
       obtain ⟨hf, hc, rfl⟩ := write_frame hw
@@ -161,7 +168,10 @@ theorem sendInv_step {s : Sys} (h : SendInv s) (hq : s.quirkNoRoomGuard = false)
         exact frameOK_mono (by simp [Ghost.onWrite]) (by intro hx; simp [hnf] at hx) (h.wire_ok f hfm)
     · exact h
   | appReset code =>
-    simp only [step]
+    cases hgn : s.sendGone with
+    | true => rw [(step_gone hgn).2]; exact h
+    | false =>
+    simp only [step, hgn, Bool.false_eq_true, if_false]
     refine ⟨SInv_reset h.sinv code, ?_, ?_, h.out_wire⟩
     · have := h.hi_le; simp only [reset]; split <;> exact this
     · intro f hfm; exact frameOK_congr rfl rfl (h.wire_ok f hfm)
@@ -214,7 +224,11 @@ theorem sendInv_step {s : Sys} (h : SendInv s) (hq : s.quirkNoRoomGuard = false)
     exact ⟨by rw [e1, e2]; exact h.sinv, by rw [e1, e2]; exact h.hi_le, by rw [e2, e3]; exact h.wire_ok,
       by rw [e2, e3]; exact h.out_wire⟩
   | discardRecv =>
-    obtain ⟨e1, e2, e3, -⟩ := step_recv_side s .discardRecv (Or.inr (Or.inr rfl))
+    obtain ⟨e1, e2, e3, -⟩ := step_recv_side s .discardRecv (Or.inr (Or.inr (Or.inl rfl)))
+    exact ⟨by rw [e1, e2]; exact h.sinv, by rw [e1, e2]; exact h.hi_le, by rw [e2, e3]; exact h.wire_ok,
+      by rw [e2, e3]; exact h.out_wire⟩
+  | discardSend =>
+    obtain ⟨e1, e2, e3, -⟩ := step_recv_side s .discardSend (Or.inr (Or.inr (Or.inr rfl)))
     exact ⟨by rw [e1, e2]; exact h.sinv, by rw [e1, e2]; exact h.hi_le, by rw [e2, e3]; exact h.wire_ok,
       by rw [e2, e3]; exact h.out_wire⟩
   | ackFrame i =>
@@ -564,7 +578,10 @@ theorem hiInv_step {s : Sys} (hs : SendInv s) (h : HiInv s) (hq : s.quirkNoRoomG
     (ok : okOp s op) : HiInv (step s op).1 := by
   cases op with
   | appWrite data fin =>
-    simp only [step]
+    cases hgn : s.sendGone with
+    | true => rw [(step_gone hgn).1]; exact h
+    | false =>
+    simp only [step, hgn, Bool.false_eq_true, if_false]
     split
     · rename_i s' hw
       obtain ⟨hf, hc, rfl⟩ := write_frame hw
@@ -595,7 +612,10 @@ theorem hiInv_step {s : Sys} (hs : SendInv s) (h : HiInv s) (hq : s.quirkNoRoomG
         rw [hnr] at this; cases this
     · exact h
   | appReset code =>
-    simp only [step]
+    cases hgn : s.sendGone with
+    | true => rw [(step_gone hgn).2]; exact h
+    | false =>
+    simp only [step, hgn, Bool.false_eq_true, if_false]
     have e : (reset s.send code).highest = s.send.highest ∧ (reset s.send code).pending = s.send.pending := by
       simp only [reset]; split <;> exact ⟨rfl, rfl⟩
     refine ⟨by rw [e.1]; exact h.wire_hi, by rw [e.1]; exact h.fin_hi, by rw [e.1, e.2]; exact h.unsent, ?_⟩
@@ -653,7 +673,10 @@ theorem hiInv_step {s : Sys} (hs : SendInv s) (h : HiInv s) (hq : s.quirkNoRoomG
     obtain ⟨e1, e2, e3, e4⟩ := step_recv_side s (.deliverReset j) (Or.inr (Or.inl ⟨j, rfl⟩))
     exact hiInv_of_eq h e1 e2 e3 e4
   | discardRecv =>
-    obtain ⟨e1, e2, e3, e4⟩ := step_recv_side s .discardRecv (Or.inr (Or.inr rfl))
+    obtain ⟨e1, e2, e3, e4⟩ := step_recv_side s .discardRecv (Or.inr (Or.inr (Or.inl rfl)))
+    exact hiInv_of_eq h e1 e2 e3 e4
+  | discardSend =>
+    obtain ⟨e1, e2, e3, e4⟩ := step_recv_side s .discardSend (Or.inr (Or.inr (Or.inr rfl)))
     exact hiInv_of_eq h e1 e2 e3 e4
   | ackFrame i =>
     obtain ⟨f, hw, hf⟩ := ok
@@ -789,7 +812,10 @@ theorem step_sender_facts {s : Sys} (hs : SendInv s) (hh : HiInv s) (hq : s.quir
         (step s op).1.ghost.finWritten = true ∧ (step s op).1.ghost.written = s.ghost.written) := by
   cases op with
   | appWrite data fin =>
-    simp only [step]
+    cases hgn : s.sendGone with
+    | true => rw [(step_gone hgn).1]; exact ⟨Nat.le_refl _, fun _ => rfl, fun h => h, fun h => ⟨h, rfl⟩⟩
+    | false =>
+    simp only [step, hgn, Bool.false_eq_true, if_false]
     split
     · rename_i s' hw
       obtain ⟨hf, hc, rfl⟩ := write_frame hw
@@ -802,7 +828,10 @@ theorem step_sender_facts {s : Sys} (hs : SendInv s) (hh : HiInv s) (hq : s.quir
       intro h; rw [hnf] at h; cases h
     · refine ⟨Nat.le_refl _, ?_, fun h => h, ?_⟩ <;> simp
   | appReset code =>
-    simp only [step]
+    cases hgn : s.sendGone with
+    | true => rw [(step_gone hgn).2]; exact ⟨Nat.le_refl _, fun _ => rfl, fun h => h, fun h => ⟨h, rfl⟩⟩
+    | false =>
+    simp only [step, hgn, Bool.false_eq_true, if_false]
     have e : (reset s.send code).highest = s.send.highest := by simp only [reset]; split <;> rfl
     refine ⟨by rw [e]; exact Nat.le_refl _, fun _ => e, ?_, ?_⟩ <;> simp
   | emit space mo =>
@@ -827,7 +856,10 @@ theorem step_sender_facts {s : Sys} (hs : SendInv s) (hh : HiInv s) (hq : s.quir
     obtain ⟨e1, e2, -, -⟩ := step_recv_side s (.deliverReset j) (Or.inr (Or.inl ⟨j, rfl⟩))
     rw [e1, e2]; exact ⟨Nat.le_refl _, fun _ => rfl, fun h => h, fun h => ⟨h, rfl⟩⟩
   | discardRecv =>
-    obtain ⟨e1, e2, -, -⟩ := step_recv_side s .discardRecv (Or.inr (Or.inr rfl))
+    obtain ⟨e1, e2, -, -⟩ := step_recv_side s .discardRecv (Or.inr (Or.inr (Or.inl rfl)))
+    rw [e1, e2]; exact ⟨Nat.le_refl _, fun _ => rfl, fun h => h, fun h => ⟨h, rfl⟩⟩
+  | discardSend =>
+    obtain ⟨e1, e2, -, -⟩ := step_recv_side s .discardSend (Or.inr (Or.inr (Or.inr rfl)))
     rw [e1, e2]; exact ⟨Nat.le_refl _, fun _ => rfl, fun h => h, fun h => ⟨h, rfl⟩⟩
   | ackFrame i =>
     obtain ⟨f, hw, hf⟩ := ok
